@@ -11,7 +11,7 @@ from pgpy.constants import PubKeyAlgorithm
 
 encfix.install()
 
-FUNCTIONS_ENCODED = ['pgpy.packet.packets.IntegrityProtectedSKEDataV1.decrypt', 'pgpy.packet.packets.IntegrityProtectedSKEDataV1.encrypt',
+FUNCTIONS_ENCODED = ['pgpy.packet.fields.String2Key.derive_key (passphrase encoding)', 'pgpy.packet.packets.IntegrityProtectedSKEDataV1.decrypt', 'pgpy.packet.packets.IntegrityProtectedSKEDataV1.encrypt',
                      'pgpy.packet.packets.PKESessionKeyV3.decrypt_sk', 'pgpy.packet.packets.SKESessionKeyV4.decrypt_sk',
                      'pgpy.pgp.PGPMessage.decrypt', 'pgpy.pgp.PGPMessage.encrypt', 'pgpy.pgp.PGPMessage.parse', 'pgpy.pgp.PGPKey.decrypt',
                      'pgpy.packet.packets.MDC.parse', 'pgpy.packet.fields.String2Key.derive_key']
